@@ -50,6 +50,10 @@ pub enum Frame {
     Null,
 }
 
+/// Arrays nested deeper than this are rejected as badly encoded, so that the recursive descent
+/// cannot be driven into a stack overflow by the peer.
+const MAX_ARRAY_DEPTH: usize = 32;
+
 impl Frame {
     /// Try to read data of a frame from the given reader.
     ///
@@ -59,6 +63,10 @@ impl Frame {
     ///
     /// [`FrameError::Incomplete`]: crate::resp::frame::Error::Incomplete
     pub fn parse(reader: &mut Cursor<&[u8]>) -> Result<Self, Error> {
+        Self::parse_nested(reader, 0)
+    }
+
+    fn parse_nested(reader: &mut Cursor<&[u8]>, depth: usize) -> Result<Self, Error> {
         match get_byte(reader)? {
             b'+' => {
                 let l = get_line(reader)?;
@@ -97,6 +105,9 @@ impl Frame {
                 Ok(Frame::BulkString(b))
             }
             b'*' => {
+                if depth >= MAX_ARRAY_DEPTH {
+                    return Err(Error::BadEncoding);
+                }
                 // Parse the array length and try convert it to u64
                 let len = get_integer(reader)?;
                 let len = len.try_into().map_err(|_| Error::BadEncoding)?;
@@ -104,7 +115,7 @@ impl Frame {
                 // one byte, so never reserve more than the remaining input can hold.
                 let mut items = Vec::with_capacity(std::cmp::min(len, reader.remaining()));
                 for _ in 0..len {
-                    items.push(Frame::parse(reader)?);
+                    items.push(Frame::parse_nested(reader, depth + 1)?);
                 }
                 Ok(Frame::Array(items))
             }
@@ -114,6 +125,10 @@ impl Frame {
 
     /// Checks if a message frame can be parsed from the reader without memory allocations.
     pub fn check(buf: &mut Cursor<&[u8]>) -> Result<(), Error> {
+        Self::check_nested(buf, 0)
+    }
+
+    fn check_nested(buf: &mut Cursor<&[u8]>, depth: usize) -> Result<(), Error> {
         match get_byte(buf)? {
             b'+' => {
                 get_line(buf)?;
@@ -136,9 +151,12 @@ impl Frame {
                 }
             }
             b'*' => {
+                if depth >= MAX_ARRAY_DEPTH {
+                    return Err(Error::BadEncoding);
+                }
                 let n = get_integer(buf)?;
                 for _ in 0..n {
-                    Frame::check(buf)?;
+                    Frame::check_nested(buf, depth + 1)?;
                 }
             }
             _ => return Err(Error::BadEncoding),
